@@ -1545,6 +1545,9 @@ func (fr *Frame) next(st *State, g string, x *ssa.Next) *State {
 	fr.refFacts(v, vt, st)
 	val, has := fr.mapRead(st, m, fr.val(rng.X), k)
 	vc.assume(implies(ok, and(has, eq(v, val))))
+	// a map that yields a key is not empty
+	msz := fmt.Sprintf("(%s_size (select %s %s))", vc.mapSort(m), st.get(vc.mapHeapVar(m)), fr.val(rng.X))
+	vc.assume(implies(ok, vc.leInt(vc.intLitN(1, types.Typ[types.Int]), msz)))
 	fr.tuples[x] = []string{ok, k, v}
 	vc.note("range over map in %s: each iteration sees an arbitrary present key (no visited-set tracking)", fr.fn.String())
 	return st
